@@ -17,6 +17,9 @@ package main
 //   HE,k,n,t,v,e,c,run  it returns (v,e); c=1: it returned because ctx.Done() fired; run = running handlers now
 //   OE,k,t,e         error callback          G,k,t,v,e       first Get2 returned
 //   GG,k,t,v,e       a second Get2 at the end of the scenario
+//   G1,k,t,v         Get1 (called from its own goroutine right after Send returned) returned v
+//   ER,k,t,e         Err() called right after the first Get2 returned
+//   HANG1,k          Get1 had not returned at the horizon
 //   HANG,k           Get2 had not returned at the horizon
 //   PC,t,k,n         parent context about to be cancelled (logged BEFORE cancel() is called, so every effect
 //                    of the cancellation is logged after it); k = -1: by the script, else by the n-th handler invocation of task k
@@ -199,6 +202,7 @@ func runAnts(toks []string) string {
 	var wg sync.WaitGroup
 	tasks := make([]ants.Task, len(specs))
 	returned := make([]bool, len(specs))
+	returned1 := make([]bool, len(specs))
 	for k := range specs {
 		k := k
 		sp := specs[k]
@@ -275,11 +279,24 @@ func runAnts(toks []string) string {
 			logf(func() string { return fmt.Sprintf("S,%d,%d", k, now()) })
 			t := pool.Send(handler, opts...)
 			logf(func() string { tasks[k] = t; return fmt.Sprintf("SR,%d,%d", k, now()) })
+			// the sibling entry points of the Task interface: Get1() from its own goroutine, started before the
+			// task completes, and Err() right after Get2() returned
+			wg.Add(1)
+			go func() {
+				defer wg.Done()
+				v1 := t.Get1()
+				logf(func() string {
+					returned1[k] = true
+					return fmt.Sprintf("G1,%d,%d,%s", k, now(), showVal(v1))
+				})
+			}()
 			v, e := t.Get2()
 			logf(func() string {
 				returned[k] = true
 				return fmt.Sprintf("G,%d,%d,%s,%s", k, now(), showVal(v), showErr(e))
 			})
+			e2 := t.Err()
+			logf(func() string { return fmt.Sprintf("ER,%d,%d,%s", k, now(), showErr(e2)) })
 		}(pool)
 	}
 	if pcAt >= 0 {
@@ -304,8 +321,11 @@ func runAnts(toks []string) string {
 	for k := range specs {
 		k := k
 		mu.Lock()
-		ok, t := returned[k], tasks[k]
+		ok, ok1, t := returned[k], returned1[k], tasks[k]
 		mu.Unlock()
+		if t != nil && !ok1 {
+			logf(func() string { return fmt.Sprintf("HANG1,%d", k) })
+		}
 		if !ok {
 			logf(func() string { return fmt.Sprintf("HANG,%d", k) })
 			continue
